@@ -249,6 +249,45 @@ theorem C14_roundtrip_containers (jfs : TextTape.JFields) (gt : Bytes) (fs : GFi
   obtain ⟨T, hp, he⟩ := WriterParse.parse_gtextRoot c f hc fs hgood hb'
   exact ⟨T₀, _, T, hp0, by rw [htape]; exact hw, by rw [hout]; exact hp, by rw [he, he0, hcontent]⟩
 
+/-- Known finding `roundtrip-param-scalar`, on the models: `a={ [[p] v ] x=y }` (a scalar-valued
+parameter block followed by a field) parses to `a, Object{6}, Parameter(p), v, x, y, End`; `writeTape`
+(space × 2) writes `a={⏎  [[p]⏎  v]=x⏎  y⏎}` — the value's epilogue left the machine waiting for a
+`=`, which lands in front of the next key —, and that text parses to a DIFFERENT tape: a mixed
+object with the stray `=` as a scalar.  The model reproduces the implementation's behaviour (the
+correspondence check agrees on it); this is the negative counterpart of `C14_roundtrip`. -/
+theorem C14_known_param_scalar_breaks :
+    TextTape.parse [97, 61, 123, 32, 91, 91, 112, 93, 32, 118, 32, 93, 32, 120, 61, 121, 32, 125] =
+      .ok [.unquoted ⟨18, [97]⟩, .object 6 false, .parameter ⟨12, [112]⟩, .unquoted ⟨9, [118]⟩,
+           .unquoted ⟨5, [120]⟩, .unquoted ⟨3, [121]⟩, .endTok 1] false ∧
+    (writeTape [.unquoted [97], .object 6 false, .parameter [112], .unquoted [118], .unquoted [120],
+        .unquoted [121], .end 1] (State.init 32 2)).toOption.map (·.out) =
+      some [97, 61, 123, 10, 32, 32, 91, 91, 112, 93, 10, 32, 32, 118, 93, 61, 120, 10, 32, 32, 121, 10, 125] ∧
+    TextTape.parse [97, 61, 123, 10, 32, 32, 91, 91, 112, 93, 10, 32, 32, 118, 93, 61, 120, 10, 32, 32, 121, 10, 125] =
+      .ok [.unquoted ⟨23, [97]⟩, .object 8 true, .parameter ⟨15, [112]⟩, .unquoted ⟨10, [118]⟩, .mixedContainer,
+           .unquoted ⟨8, [61]⟩, .unquoted ⟨7, [120]⟩, .unquoted ⟨3, [121]⟩, .endTok 1] false := by
+  refine ⟨by decide +kernel, by decide +kernel, by decide +kernel⟩
+
+/-- Known finding `roundtrip-mixed-nested-operator`, on the models: `a={ 1 k={ b>c } }` (an object
+with a non-`=` operator nested in an array that turned into key-value pairs) parses to `… b, Op(>), c
+…`; `writeTape` writes the nested field as `b>=c` — inside the nested object `write_operator` still
+takes the mixed branch (mixed mode is only cleared by `write_end`), so the value's preamble adds
+`=` —, and that text parses to a tape in which the operator has silently become `>=`. -/
+theorem C14_known_mixed_nested_operator_breaks :
+    TextTape.parse [97, 61, 123, 32, 49, 32, 107, 61, 123, 32, 98, 62, 99, 32, 125, 32, 125] =
+      .ok [.unquoted ⟨17, [97]⟩, .array 11 true, .unquoted ⟨13, [49]⟩, .mixedContainer, .unquoted ⟨11, [107]⟩,
+           .operator .eq, .object 10 false, .unquoted ⟨7, [98]⟩, .operator .gt, .unquoted ⟨5, [99]⟩, .endTok 6,
+           .endTok 1] false ∧
+    (writeTape [.unquoted [97], .array 11 true, .unquoted [49], .mixedContainer, .unquoted [107], .operator .eq,
+        .object 10 false, .unquoted [98], .operator .gt, .unquoted [99], .end 6, .end 1]
+        (State.init 32 2)).toOption.map (·.out) =
+      some [97, 61, 123, 10, 32, 32, 49, 32, 107, 61, 123, 10, 32, 32, 32, 32, 98, 62, 61, 99, 10, 32, 32, 125, 10, 125] ∧
+    TextTape.parse [97, 61, 123, 10, 32, 32, 49, 32, 107, 61, 123, 10, 32, 32, 32, 32, 98, 62, 61, 99, 10, 32, 32, 125,
+        10, 125] =
+      .ok [.unquoted ⟨26, [97]⟩, .array 11 true, .unquoted ⟨20, [49]⟩, .mixedContainer, .unquoted ⟨18, [107]⟩,
+           .operator .eq, .object 10 false, .unquoted ⟨10, [98]⟩, .operator .ge, .unquoted ⟨7, [99]⟩, .endTok 6,
+           .endTok 1] false := by
+  refine ⟨by decide +kernel, by decide +kernel, by decide +kernel⟩
+
 /-
 Growth theorem, NOT proved beyond flat documents and nested objects (full statement kept;
 `C14_roundtrip_flat`, `C14_roundtrip_nested`, `C14_roundtrip_arrays` and `C14_roundtrip_containers`
